@@ -847,31 +847,45 @@ func (f *Frame) execLoop(st *State, label string, n ast.Node, modified []types.O
 	iter.assume(c)
 	exit.assume(not(c))
 	iterStart := iter.fork()
+	if f.top && ls != nil {
+		// vacuity canary: the body of a loop under contract must be reachable (main.go)
+		f.c.loopPCs = append(f.c.loopPCs, loopPC{ord, append([]string(nil), iter.pc...)})
+	}
 	end := body(iter)
 	f.brk = f.brk[:len(f.brk)-1]
 	ends := append([]*State{end}, bc.continues...)
 	merged := f.mergeStates(ends)
-	if merged != nil && ls != nil && len(ls.Each) > 0 {
-		// per-iteration postconditions: the end of the body of an arbitrary iteration, `continue` paths included
-		be := f.loopSpecEnv(iterStart)
-		be.gh = map[string]Val{}
-		for gk, gv := range iterStart.gh {
-			be.gh[gk] = gv
-		}
-		for _, ec := range ls.Each {
+	// per-iteration postconditions: `each` at the end of the body of an arbitrary iteration (`continue`
+	// paths included, before the post statement, so the loop variable still names this iteration);
+	// `eachpost` after the post statement
+	be := f.loopSpecEnv(iterStart)
+	be.gh = map[string]Val{}
+	for gk, gv := range iterStart.gh {
+		be.gh[gk] = gv
+	}
+	checkEach := func(s *State, cl []Clause, kind string) {
+		for _, ec := range cl {
 			func() {
-				defer f.specGuard(n, "loop each "+ec.Label)
-				env := f.loopSpecEnv(merged)
+				defer f.specGuard(n, "loop "+kind+" "+ec.Label)
+				env := f.loopSpecEnv(s)
 				env.before = be
-				t := f.specBool(merged, ec.Expr, env)
-				f.oblige(merged, "loop", fmt.Sprintf("%d:each:%s", ord, ec.Label), t, n.Pos(), "every iteration: "+ec.Src)
+				t := f.specBool(s, ec.Expr, env)
+				f.oblige(s, "loop", fmt.Sprintf("%d:%s:%s", ord, kind, ec.Label), t, n.Pos(), "every iteration: "+ec.Src)
 			}()
 		}
+	}
+	if merged != nil && ls != nil {
+		checkEach(merged, ls.Each, "each")
 	}
 	if merged != nil {
 		if post != nil {
 			merged = post(merged)
 		}
+	}
+	if merged != nil && ls != nil {
+		checkEach(merged, ls.EachPost, "eachpost")
+	}
+	if merged != nil {
 		if merged != nil {
 			checkInv(merged, "step")
 			for _, af := range autoFrames {
